@@ -367,8 +367,7 @@ impl Req {
 pub struct Plan {
     /// claim kind for signatures and counters: RefAuth kind (+ `:ent-source` for a wildcard no
     /// data whose source of synthesis is an empty non-terminal, + `:ds` for a negative answer to
-    /// QTYPE DS, which RFC 5155 §7.2.4 and servers special-case, + `@feature+feature`, see the
-    /// end of `plan`)
+    /// QTYPE DS, which RFC 5155 §7.2.4 and servers special-case, + `@deep`, see the end of `plan`)
     pub claim: String,
     /// alternatives; the first one is the proof reported when none is satisfied
     pub alts: Vec<Vec<Req>>,
@@ -380,8 +379,9 @@ pub struct Plan {
 /// The proof obligations of the response RefAuth prescribes for (qname, qtype) – first step of
 /// the lookup only (what happens at the end of a CNAME chase is a don't-care of C10).
 /// None: nothing to prove (positive, non-synthesised answer / referral / refused).
-/// `longest_matched`: for the DS/opt-out proof the closest *provable* encloser of the reference
-/// chain (longest strict ancestor of qname that owns an NSEC3 there).
+/// `refp`: the reference chain; consulted only for the DS/opt-out proof, whose reported
+/// alternative names the closest *provable* encloser of that chain (longest strict ancestor of
+/// qname owning an NSEC3 RR there).
 pub fn plan(z: &Zone, e: &Outcome, nsec3: bool, opt_out: bool, refp: &RefProofs) -> Option<Plan> {
     let q = &e.qname;
     let t = e.qtype;
@@ -465,22 +465,13 @@ pub fn plan(z: &Zone, e: &Outcome, nsec3: bool, opt_out: bool, refp: &RefProofs)
         }
         Kind::Answer | Kind::CnameChain | Kind::Referral | Kind::Refused => return None,
     }
-    // structural features of the situation (part of the claim kind in signatures, so that defects
+    // structural feature of the situation (part of the claim kind in signatures, so that defects
     // with different preconditions keep different signatures):
-    //   deep               the query name lies two or more labels below its closest encloser
-    //                      (next closer name != query name, parent of the query name does not exist)
-    //   asterisk-apex-ent  (NSEC3 only – empty non-terminals own no NSEC) the closest encloser, or
-    //                      a name the proof has to match, is the empty non-terminal `*.<apex>`
-    let mut feats: Vec<&str> = Vec::new();
-    let star_apex = wildcard_of(&z.apex);
-    if nsec3 && z.is_ent(&star_apex) && (p.ce.as_ref() == Some(&star_apex) || p.alts[0].iter().any(|r| matches!(r.how, How::Match { .. }) && r.target == star_apex)) {
-        feats.push("asterisk-apex-ent");
-    }
+    //   @deep  the query name lies two or more labels below its closest encloser (next closer name
+    //          != query name, the parent of the query name does not exist) – servers that derive
+    //          the wildcard or the encloser from the query name's parent go wrong exactly here
     if p.claim != "nodata:ds-optout" && st.closest_encloser.as_ref().is_some_and(|ce| q.len() >= ce.len() + 2) {
-        feats.push("deep");
-    }
-    if !feats.is_empty() {
-        p.claim = format!("{}@{}", p.claim, feats.join("+"));
+        p.claim.push_str("@deep");
     }
     Some(p)
 }
